@@ -235,9 +235,10 @@ func paramWrittenToTar(c *Ctx, fn *ssa.Function, p *ssa.Parameter, depth int) bo
 }
 
 func checkC03(c *Ctx, r *Report) {
-	r.Rules = []string{"O1 every digest is fed by the stream that is shipped and read only after it is complete", "O2 apk digests sit below the compressor; datahash/signed digest are the segment writers' results", "F7 md5sums names the header that was written", "F8 mtree verbs bound to the matching fields; .PKGINFO first; one size value", "F9 size accumulators are fed from the copied entries", "F8-line every shipped entry type gets an mtree line", "shipped-F12-apk the apk segments shipped are the buffers that were hashed (imported from C10)"}
+	r.Rules = []string{"O1 every digest is fed by the stream that is shipped and read only after it is complete", "O2 apk digests sit below the compressor; datahash/signed digest are the segment writers' results", "F7 md5sums names the header that was written", "F8 mtree verbs bound to the matching fields; .PKGINFO first; one size value", "F9 size accumulators are fed from the copied entries", "F8-line every shipped entry type gets an mtree line", "shipped-F12-apk the apk segments shipped are the buffers that were hashed (imported from C10)", "F9-files-only directories and links add nothing to the installed size"}
 	r.Explanation = "Stream-coupling and ordering rules over go/ssa for every hash nfpm creates on a packaging path (internal/sign excluded). (O1) each hash must be fed in one of three coupled ways — a TeeReader on the very reader that io.Copy drains into the archive writer, an io.MultiWriter that also contains the archive/output writer and is the destination of one copy or the sink of the compressor, or Write of the same SSA value that is written to the archive — and never by a separate read of the data; every Sum is dominated by the completion of that feeding (the copy, or the Close of the compressor the hash sits under). (O2) in apk the hash is an element of the MultiWriter that is the gzip writer's sink, so it covers the bytes as shipped. (F7) the name printed into md5sums is the Name field of the header handed to WriteHeader. (F8) in the mtree line formats each key=%verb is bound to the like-named field, .PKGINFO's entry is put first, and the .PKGINFO size in the tar header and in the mtree is one value; digests go to the fields of their own algorithm. (F9) installed-size accumulators are fed from the entries' sizes, divided by 1024 for deb/ipk. Digest and size values themselves, and rpmpack's internal digests, are not computed."
 	r.Explanation += " (F8-line) the mtree line writer, evaluated for every entry type the archlinux payload writer ships, must reach a write. (shipped-F12-apk, imported from C10) the buffers the apk segments were hashed from are the ones concatenated into the package, all of them, on every path."
+	r.Explanation += " (F9-files-only) the payload writer is evaluated for every directory and link type: no addition whose addend derives from the entry's size is live with a value other than the constant zero."
 	r.Assumptions = []string{
 		"hash.Hash, io.TeeReader, io.MultiWriter and io.Copy behave as documented",
 		"rpm header/payload digests and sizes are computed inside rpmpack over the payload it writes (dependency)",
@@ -871,8 +872,75 @@ func checkPAXChecksum(c *Ctx, r *Report) {
 	r.Floor("O1-pax", n, 1)
 }
 
+// checkSizeOnlyForBodies (F9-files-only): the installed-size accumulators count
+// the bytes shipped - entries that ship no body (directories, symbolic links)
+// add nothing. The payload writer is evaluated for each such entry type; an
+// addition whose addend derives from the entry's size (which, for a link, is
+// the size of whatever the link's source happens to name on the build host)
+// must not be live, unless the addend is the constant zero there.
+func checkSizeOnlyForBodies(c *Ctx, r *Report, pa *provAnalysis) {
+	n := 0
+	for _, pk := range c.Packagers {
+		if pk.Format == "" || pk.Format == "rpm" {
+			continue
+		}
+		w := payloadWriter(c, pk)
+		if w == nil {
+			continue
+		}
+		for _, typ := range preparedTypes {
+			want := specPayload(pk.Format, typ)
+			if want != "DIR" && want != "LINK" {
+				continue
+			}
+			n++
+			ev := cellEvaluator(c, typ, nil)
+			fr := ev.Explore(w, make([]AV, len(w.Params)))
+			bad := ""
+			var at ssa.Instruction
+			for _, li := range fr.LiveInstrs() {
+				bo, ok := li.In.(*ssa.BinOp)
+				if !ok || bo.Op != token.ADD {
+					continue
+				}
+				b, isB := bo.Type().Underlying().(*types.Basic)
+				if !isB || b.Info()&types.IsInteger == 0 {
+					continue
+				}
+				fromSize := false
+				if call, isC := bo.Y.(*ssa.Call); isC {
+					if o := calleeObj(call); o != nil && o.Name() == "Size" && len(call.Call.Args) > 0 && isContentPtr(call.Call.Args[0].Type()) {
+						fromSize = true
+					}
+				}
+				if !fromSize && pa.Of(bo.Y).has("FileInfo.Size") {
+					fromSize = true
+				}
+				if !fromSize {
+					continue
+				}
+				if li.F != nil {
+					if v, known := avInt(li.F.Eval(bo.Y)); known && v == 0 {
+						continue
+					}
+				}
+				bad = shorten(valueExpr(c, bo.Y, 0), 60)
+				at = bo
+			}
+			pos := c.pos(w.Pos())
+			if at != nil {
+				pos = c.instrPos(at)
+			}
+			r.Check(bad == "", "F9-files-only", fmt.Sprintf("%s: an entry of type %q adds nothing to the installed size", pk.Format, typ), pos,
+				"for this entry type the addition of "+bad+" is live: the entry ships no body, and its recorded size is that of whatever its source names on the build host (a link's target), so the stated size exceeds the payload")
+		}
+	}
+	r.Floor("F9-files-only", n, 8)
+}
+
 func checkSizes(c *Ctx, r *Report, pa *provAnalysis) {
 	checkAccumulators(c, r)
+	checkSizeOnlyForBodies(c, r, pa)
 	checkPAXChecksum(c, r)
 	// deb / ipk: InstalledSize = accumulator / 1024, accumulator fed from entry sizes
 	for _, format := range []string{"deb", "ipk"} {
